@@ -488,7 +488,8 @@ class ConcHarness:
         else:
             bad = [p for p in pr[1] if p[0] != "ok"]
             if bad:
-                viol("C05", "capacity-lost", f"probe of {self.max_connections} fresh origins failed: {[exc_class(p[1]) for p in bad]}; pool after callers: {after['conns']}")
+                viol("C05", "capacity-lost", f"probe of {self.max_connections} fresh origins failed: {[exc_class(p[1]) for p in bad]}; pool after callers: {after['conns']}",
+                     probe_exc=exc_class(bad[0][1]))
         # ---- C06
         orphans = sorted(post["open"] - post["owned"])
         if orphans:
